@@ -4196,7 +4196,7 @@ static WBXMLError xml_fill_header(WBXMLEncoder *encoder, WBXMLBuffer *header)
 static WBXMLError xml_encode_tag(WBXMLEncoder *encoder, WBXMLTreeNode *node)
 {
     const WB_TINY *ns = NULL;
-    WB_UTINY i;
+    WB_ULONG i;
 
     /* Set as current Tag */
     if (node->name->type == WBXML_VALUE_TOKEN)
@@ -4206,7 +4206,7 @@ static WBXMLError xml_encode_tag(WBXMLEncoder *encoder, WBXMLTreeNode *node)
 
     /* Indent */
     if (encoder->xml_gen_type == WBXML_GEN_XML_INDENT) {
-        for (i=0; i<(encoder->indent * encoder->indent_delta); i++) {
+        for (i=0; i<((WB_ULONG) encoder->indent * encoder->indent_delta); i++) {
             if (!wbxml_buffer_append_char(encoder->output, ' '))
                 return WBXML_ERROR_ENCODER_APPEND_DATA;
         }
@@ -4257,7 +4257,7 @@ static WBXMLError xml_encode_tag(WBXMLEncoder *encoder, WBXMLTreeNode *node)
  */
 static WBXMLError xml_encode_end_tag(WBXMLEncoder *encoder, WBXMLTreeNode *node)
 {
-    WB_UTINY i;
+    WB_ULONG i;
 
     if (encoder->xml_gen_type == WBXML_GEN_XML_INDENT) {
 
@@ -4274,7 +4274,7 @@ static WBXMLError xml_encode_end_tag(WBXMLEncoder *encoder, WBXMLTreeNode *node)
             encoder->indent--;
 
             /* Indent End Element */
-            for (i=0; i<(encoder->indent * encoder->indent_delta); i++) {
+            for (i=0; i<((WB_ULONG) encoder->indent * encoder->indent_delta); i++) {
                 if (!wbxml_buffer_append_char(encoder->output, ' '))
                     return WBXML_ERROR_ENCODER_APPEND_DATA;
             }
@@ -4422,7 +4422,7 @@ static WBXMLError xml_encode_text(WBXMLEncoder *encoder, WBXMLTreeNode *node)
 {
     WBXMLBuffer *str = node->content;
     WBXMLBuffer *tmp = NULL;
-    WB_UTINY i = 0;
+    WB_ULONG i = 0;
 
     if (encoder->in_cdata) {
         /* If we are in a CDATA section, do not modify the text to encode */
@@ -4443,7 +4443,7 @@ static WBXMLError xml_encode_text(WBXMLEncoder *encoder, WBXMLTreeNode *node)
 #endif /* WBXML_ENCODER_XML_NO_EMPTY_ELT_INDENT */
 
                 /* Indent Content (only indent in first call to xml_encode_text()) */
-                for (i=0; i<(encoder->indent * encoder->indent_delta); i++) {
+                for (i=0; i<((WB_ULONG) encoder->indent * encoder->indent_delta); i++) {
                     if (!wbxml_buffer_append_char(encoder->output, ' ')) {
                         wbxml_buffer_destroy(tmp);
                         return WBXML_ERROR_ENCODER_APPEND_DATA;
